@@ -7,6 +7,7 @@ import copy as _copy
 import hashlib
 import json
 import math
+import os
 import signal
 from fractions import Fraction
 
@@ -508,6 +509,9 @@ class World:
             if exact and good and not isinstance(a.V, str) and not isinstance(b.V, str):
                 exact = kernel.crossings_max_denominator(a.V, b.V) <= 10**9
             binary_t2 = exact and good
+            if good and not exact and os.environ.get("VERIF_T2_FLOAT") == "1" and tol is not None:
+                if not tol.curved or os.environ.get("VERIF_T2_CURVED") == "1":
+                    binary_t2 = True
             self.stats.inc(f"position:{pos}")
         return {"tol": tol, "exact": exact, "good_position": good, "binary_t2": binary_t2}
 
@@ -516,7 +520,8 @@ class World:
         if op in ("str", "repr", "points", "jinter", "jand"):
             return False  # depend on the representation by design: T1 only
         if binary:
-            return regime["binary_t2"]
+            # force_t2 is set only by the witness histories of listed known findings
+            return regime["binary_t2"] or bool(step.get("force_t2"))
         tol = regime["tol"]
         if op == "box" and tol is not None and tol.curved:
             return False
